@@ -92,14 +92,17 @@ def run (j : Json) : Except String Json := do
     let sn ← optBool j "serializeNone" false
     let compact ← optBool j "compact" false
     let nonFast ← strList j "nonFast"
+    let jsonEnums ← strList j "jsonEnums"    -- enum classes whose members are int / float / str instances
     let created := createOk Mp nonFast cls
     out := out ++ [("created", .bool created), ("fsafe", .bool (fsafeCls nonFast cls)),
                    ("fplain", .bool (fplainInst cls x)), ("fwf", .bool (fwf O cls x)),
                    ("fastDefects", strs (fastDefects Mp nonFast compact sn cls x))]
     if created then
-      out := out ++ [("fast", resToJson (fastSerialize Mp nonFast sn compact cls x))]
+      out := out ++ [("fast", resToJson (fastSerialize Mp nonFast jsonEnums sn compact cls x))]
     if mapperFree then
       out := out ++ [("regular", resToJson (serializeCompact O compact cls x))]
+  else if mode == "oracle" then
+    pure ()       -- cases outside the model (Enum serialization_by_value): the harness runs the oracle only
   else throw s!"shortcut: unknown mode {mode}"
   pure (Json.mkObj out)
 
